@@ -49,17 +49,23 @@ MCOther == OtherProxyReq /\ last' = StepRec("Other", "-", "-", Dummy, TRUE,
 MCReassoc == Reassoc /\ last' = StepRec("Reassoc", "-", "-", Dummy, TRUE,
                                         TRUE, Dummy)
 
-MCSync == \E c \in Children :
+MCRemote == \E c \in Remote, r \in ReqNames :
+    \/ /\ RWants(c, r)
+       /\ last' = StepRec("RWants", "-", c, Dummy, TRUE, TRUE, Dummy)
+    \/ /\ SyncOne(c, r)
+       /\ last' = StepRec("SyncOne", "-", c, Dummy, TRUE, TRUE, Dummy)
+
+MCSync == \E c \in Children \ Remote :
     /\ Sync(c)
     /\ last' = StepRec("Sync", "-", c, Dummy, TRUE, TRUE, Dummy)
 
-MCWants == \E c \in Children :
+MCWants == \E c \in Children \ Remote :
     /\ ChildWants(c)
     /\ last' = StepRec("Wants", "-", c, Dummy, TRUE, TRUE, Dummy)
 
 MCNext ==
     \/ MCSign \/ MCResp \/ MCMakeReq \/ MCGetReq \/ MCOther \/ MCReassoc
-    \/ MCSync \/ MCWants
+    \/ MCSync \/ MCWants \/ MCRemote
 
 MCSpec == MCInit /\ [][MCNext]_<<vars, last>>
 
